@@ -66,20 +66,26 @@ def main():
     if a.ids:
         seeds = [s for s in seeds if any(s.name.startswith(i) for i in a.ids)]
     noisy = 0
+    alarms = undecided = 0
     with ThreadPoolExecutor(8) as ex:
         for name, bad in ex.map(run_one, seeds):
             if not bad:
                 print(f"{name:14s} silent")
                 continue
             noisy += 1
-            print(f"{name:14s} NOISY")
+            if any(k == "V" for items in bad.values() if isinstance(items, list) for k, _ in items):
+                alarms += 1
+                print(f"{name:14s} NOISY (false alarm)")
+            else:
+                undecided += 1
+                print(f"{name:14s} NOISY (cannot decide)")
             if "apply" in bad:
                 print("      apply failed:", bad["apply"])
                 continue
             for p, items in bad.items():
                 for kind, text in items:
                     print(f"      {p} {'false alarm' if kind == 'V' else 'cannot decide'}: {text[:220]}")
-    print(f"noisy: {noisy}/{len(seeds)}")
+    print(f"noisy: {noisy}/{len(seeds)}  (false alarms: {alarms}, cannot decide only: {undecided})")
     return 1 if noisy else 0
 
 
